@@ -9,6 +9,8 @@
     mt <value> <mtid|nil>          metatable of that table/userdata, or the per-type metatable of the value's type
     op <kind> <mode> <args…> => <calls…> (R <results…> | E <kind>)
          a call is logged as  C <fn> <nargs> <args…>
+         kind `self` (<mode> <obj> <name> <args…>): the method call `obj:name(args…)` [modes lua, tail, lit] and its
+         definition `obj.name(obj, args…)` [modes dot, dotr]: the index event followed by the call event on what it delivered
   Values: nil T F nan i<int> f<bits> s<hex> | t<id> table | u<id> userdata | g<id> function | h<id> thread
           | c<id> channel.  `PRIM` = the primitive tostring of the operand.
   Core Lean only.
@@ -172,6 +174,16 @@ def runAction (s : St) (iter : Bool) (a : Action Num) : String × St :=
   | .error k => ("E " ++ showKind k, s)
   | .next _ => ("E loop", s)
 
+/-- `obj:name(…)` / `obj.name(obj, …)`: an index action, then the call action on the value it delivered.
+    Returns the expected reply text and the fetched value (for the classification of the call step). -/
+def seqIndexCall (s : St) (idx : Action Num) (callOf : W → Action Num) : String × W :=
+  match idx with
+  | .raw v => ((runAction s false (callOf v)).1, v)
+  | .call hd args _ =>
+    let v := s.ret hd args
+    (showCall ⟨hd, args⟩ ++ " " ++ (runAction s false (callOf v)).1, v)
+  | a => ((runAction s false a).1, .nil)
+
 def showOutcome (o : Outcome Num) (post : W → String) : String :=
   let calls := String.join (o.1.map (fun c => showCall c ++ " "))
   match o.2 with
@@ -231,6 +243,17 @@ def evalOp (s : St) (kind mode : String) (args : List W) (rawArgs : List String)
       | "luak", .str ks | "apif", .str ks | "self", .str ks | "global", .str ks => MetaModel.getFieldString h o ks
       | _, _ => MetaModel.getField h o k
     some (mk s false m (some (gettable h MAXTAGLOOP o k)) [] [o])
+  | "self", o :: .str ks :: cargs =>
+    -- OP_SELF (+ OP_CALL / OP_TAILCALL) against its definition OP_GETTABLEKS / OP_GETTABLE + OP_CALL
+    let idxM := match mode with
+      | "dot" => MetaModel.getFieldString h o ks
+      | "dotr" => MetaModel.getField h o (.str ks)
+      | _ => MetaModel.opSelf h o ks
+    let callM : W → Action Num := fun f =>
+      if mode = "tail" then MetaModel.opTailCall h f (o :: cargs) else MetaModel.opCall h f (o :: cargs)
+    let (ms, fv) := seqIndexCall s idxM callM
+    let (ss, _) := seqIndexCall s (gettable h MAXTAGLOOP o (.str ks)) (fun f => call_event h f (o :: cargs))
+    some { model := ms, spec := some ss, st := s, slots := [slot fv .call], operands := [o] }
   | "newindex", [o, k, v] =>
     let m := match mode, k with
       | "luak", .str ks | "apif", .str ks | "global", .str ks => MetaModel.setFieldString h o ks v
@@ -342,7 +365,7 @@ def handle (s : St) (ws : List String) : St × Verdict :=
             if stripKind impl = stripKind (sp.splitOn " ") then none
             else
               let why := "spec=" ++ sp.replace " " "_"
-              match classify kind r.slots r.operands s.heap with
+              match classify (if kind = "self" then "call" else kind) r.slots r.operands s.heap with
               | some tag => if model.isNone then some (tag ++ " " ++ why) else some why
               | none => some why
         -- classes outside the property's quantifier: no Spec verdict (reported as SKIP, counted by the harness)
